@@ -5,6 +5,7 @@ Imports model files only (no Mathlib), so it links as a native executable.
 -/
 import TgModel.Grammar
 import TgModel.LineIndex
+import TgModel.Include
 
 open Tg
 
@@ -89,6 +90,24 @@ def cmdSteps (input : List Char) : String :=
   | .outOfFuel => "OUT-OF-FUEL"
   | .ok r => s!"steps={r.steps} ntok={countLeaves r.tree}"
 
+/-- `graph <n> <root> <f0>;<f1>;…` where `<fi>` is a comma-separated list of targets, `-` = unresolved -/
+def cmdGraph (rest : String) : String :=
+  match rest.splitOn " " with
+  | [ns, rs, spec] =>
+    let n := ns.toNat!
+    let root := rs.toNat!
+    let rows : Array (List (Option Nat)) := (spec.splitOn ";").toArray.map fun row =>
+      if row.isEmpty || row == "." then [] else (row.splitOn ",").map fun t => if t == "-" then none else some t.toNat!
+    let w : Include.World := { n := n, incs := fun f => rows.getD f [] }
+    match Include.fileSet w root with
+    | none => "OUT-OF-FUEL"
+    | some vs =>
+      let files := (vs.toArray.qsort (· < ·)).toList
+      let (order, diags) := Include.indexOrder w root
+      let links := files.map fun f => s!"{f}:" ++ ",".intercalate ((Include.links w f).map fun (i, t) => s!"{i}>{t}")
+      s!"files={files} order={order.reverse} diags={diags} links={" ".intercalate links}"
+  | _ => "bad-args"
+
 def dispatch (cmd rest : String) : String :=
   match cmd with
   | "lex" => match payload rest with | some s => cmdLex s | none => "bad-utf8"
@@ -97,6 +116,7 @@ def dispatch (cmd rest : String) : String :=
   | "parseh" => match payload rest with | some s => cmdParse s true | none => "bad-utf8"
   | "steps" => match payload rest with | some s => cmdSteps s | none => "bad-utf8"
   | "li" => LineIndex.cmd rest
+  | "graph" => cmdGraph rest
   | _ => s!"bad-cmd {cmd}"
 
 partial def loop (h : IO.FS.Stream) (out : IO.FS.Stream) : IO Unit := do
